@@ -406,3 +406,179 @@ Proof.
   intro H. induction P as [|p P IH]; simpl; [reflexivity|]. rewrite IH, andb_true_r.
   induction p as [|a p IHp]; simpl; [reflexivity|]. rewrite fuzzy_q_refl by exact H. exact IHp.
 Qed.
+
+(* ------------------------------------------------------------------ symmetry of mesh equality (C16) *)
+Lemma compat_prop a b :
+  compat a b = true <-> a = b \/ (a = 8 /\ b = 9) \/ (a = 9 /\ b = 8) \/ (a = 11 /\ b = 12) \/ (a = 12 /\ b = 11).
+Proof. unfold compat. rewrite !orb_true_iff, !andb_true_iff, !Nat.eqb_eq. tauto. Qed.
+
+Lemma compat_sym a b : compat a b = compat b a.
+Proof.
+  destruct (compat a b) eqn:E1; destruct (compat b a) eqn:E2; try reflexivity.
+  - apply compat_prop in E1. assert (X : compat b a = true) by (apply compat_prop; lia). congruence.
+  - apply compat_prop in E2. assert (X : compat a b = true) by (apply compat_prop; lia). congruence.
+Qed.
+
+Lemma compat_class a b c : compat a b = true -> compat a c = true -> a <> b -> a <> c -> b = c.
+Proof. rewrite !compat_prop. lia. Qed.
+
+Lemma memb_In n l : memb n l = true <-> In n l.
+Proof.
+  unfold memb. rewrite existsb_exists. split.
+  - intros [x [H E]]. apply Nat.eqb_eq in E. subst. exact H.
+  - intro H. exists n. split; [exact H | apply Nat.eqb_refl].
+Qed.
+
+Lemma memb_false n l : memb n l = false <-> ~ In n l.
+Proof. rewrite <- memb_In. destruct (memb n l); split; congruence. Qed.
+
+Lemma points_close_sym rel abs P : forall R, points_close rel abs P R = points_close rel abs R P.
+Proof.
+  induction P as [|p P IH]; intros [|q R]; simpl; try reflexivity. rewrite IH. f_equal.
+  revert q. induction p as [|a p IHp]; intros [|b q]; simpl; try reflexivity. rewrite fuzzy_q_sym, IHp. reflexivity.
+Qed.
+
+Lemma rows_equal_sym r1 : forall r2, rows_equal r1 r2 = rows_equal r2 r1.
+Proof.
+  induction r1 as [|a r1 IH]; intros [|b r2]; simpl; try reflexivity. rewrite IH. f_equal.
+  destruct (list_eqb (sort_row a) (sort_row b)) eqn:E1; destruct (list_eqb (sort_row b) (sort_row a)) eqn:E2; try reflexivity.
+  - apply list_eqb_eq in E1. assert (X : list_eqb (sort_row b) (sort_row a) = true) by (apply list_eqb_eq; congruence). congruence.
+  - apply list_eqb_eq in E2. assert (X : list_eqb (sort_row a) (sort_row b) = true) by (apply list_eqb_eq; congruence). congruence.
+Qed.
+
+Lemma fst_unique {A B} (l : list (A * B)) a b1 b2 :
+  NoDup (map fst l) -> In (a, b1) l -> In (a, b2) l -> b1 = b2.
+Proof.
+  induction l as [|[x y] l IH]; intros ND H1 H2; [contradiction|]. simpl in ND. inversion ND; subst.
+  destruct H1 as [H1|H1]; destruct H2 as [H2|H2].
+  - congruence.
+  - inversion H1; subst. exfalso. apply H3. apply in_map_iff. exists (a, b2). split; [reflexivity | exact H2].
+  - inversion H2; subst. exfalso. apply H3. apply in_map_iff. exists (a, b1). split; [reflexivity | exact H1].
+  - apply IH; assumption.
+Qed.
+
+Lemma snd_unique {A B} (l : list (A * B)) a1 a2 b :
+  NoDup (map snd l) -> In (a1, b) l -> In (a2, b) l -> a1 = a2.
+Proof.
+  induction l as [|[x y] l IH]; intros ND H1 H2; [contradiction|]. simpl in ND. inversion ND; subst.
+  destruct H1 as [H1|H1]; destruct H2 as [H2|H2].
+  - congruence.
+  - inversion H1; subst. exfalso. apply H3. apply in_map_iff. exists (a2, b). split; [reflexivity | exact H2].
+  - inversion H2; subst. exfalso. apply H3. apply in_map_iff. exists (a1, b). split; [reflexivity | exact H1].
+  - apply IH; assumption.
+Qed.
+
+Lemma partner_of_member T s : In s T -> partner T s = Some s.
+Proof. intro H. unfold partner. rewrite (proj2 (memb_In s T) H). reflexivity. Qed.
+
+Section PairingInverse.
+  Variables (S T : list nat) (pairs : list (nat * nat)).
+  Hypothesis NS : NoDup S.
+  Hypothesis NT : NoDup T.
+  Hypothesis HM : match_types S T = Some pairs.
+
+  Lemma pairs_facts :
+    map fst pairs = S /\ NoDup (map snd pairs) /\ Permutation (map snd pairs) T /\ length S = length T /\
+    forall st, In st pairs -> partner T (fst st) = Some (snd st) /\ compat (fst st) (snd st) = true /\ In (snd st) T.
+  Proof.
+    unfold match_types in HM. destruct (length S =? length T) eqn:EL; [|discriminate]. apply Nat.eqb_eq in EL.
+    destruct (match_types_bijection S T pairs NT) as [M1 [M2 M3]]; [unfold match_types; rewrite (proj2 (Nat.eqb_eq _ _) EL); exact HM|].
+    destruct (match_types_aux_spec S T [] pairs HM) as [I1 [I2 I3]].
+    split; [exact M1|]. split; [exact I2|]. split; [exact M2|]. split; [exact EL|].
+    intros st Hst. destruct (I3 st Hst) as [A [_ C]]. split; [|tauto].
+    (* the partner recorded for fst st is snd st: re-run the construction *)
+    clear -HM Hst. revert pairs HM Hst. generalize (@nil nat) as used.
+    induction S as [|s S' IH]; intros used pairs HM Hst; simpl in HM.
+    - inversion HM; subst. contradiction.
+    - destruct (partner T s) as [t|] eqn:Ep; [|discriminate]. destruct (memb t used); [discriminate|].
+      destruct (match_types_aux S' T (t :: used)) as [l|] eqn:El; [|discriminate]. inversion HM; subst.
+      destruct Hst as [Hst|Hst]; [subst; simpl; exact Ep | eapply IH; eauto].
+  Qed.
+
+  (* the pairing is inverted by the partner function of the other side *)
+  Lemma partner_inverse s t : In (s, t) pairs -> partner S t = Some s.
+  Proof.
+    intro Hst. destruct pairs_facts as [F1 [F2 [F3 [F4 F5]]]].
+    destruct (F5 (s, t) Hst) as [P1 [P2 P3]]. simpl in *.
+    assert (HsS : In s S) by (rewrite <- F1; apply in_map_iff; exists (s, t); split; [reflexivity | exact Hst]).
+    destruct (memb t S) eqn:EtS.
+    - (* t is a source type as well: then it is paired with itself *)
+      apply memb_In in EtS.
+      assert (Htt : exists u, In (t, u) pairs).
+      { rewrite <- F1 in EtS. apply in_map_iff in EtS. destruct EtS as [[a b] [E H]]. simpl in E. subst. eauto. }
+      destruct Htt as [u Hu]. destruct (F5 (t, u) Hu) as [Q1 _]. simpl in Q1.
+      rewrite (partner_of_member T t P3) in Q1. inversion Q1; subst u.
+      assert (s = t) by (apply (snd_unique pairs s t t F2 Hst Hu)). subst. apply partner_of_member. exact HsS.
+    - unfold partner. rewrite EtS. apply memb_false in EtS.
+      assert (Hne : t <> s) by (intro; subst; contradiction).
+      destruct (find (compat t) S) as [s'|] eqn:Ef.
+      + apply find_some in Ef. destruct Ef as [Hs' Cs'].
+        assert (Hne' : t <> s') by (intro; subst; contradiction).
+        rewrite compat_sym in P2. f_equal. symmetry. apply (compat_class t s s' P2 Cs' Hne Hne').
+      + exfalso. pose proof (find_none _ _ Ef s HsS) as X. rewrite compat_sym in X. congruence.
+  Qed.
+
+  Lemma every_target_paired t : In t T -> exists s, In (s, t) pairs.
+  Proof.
+    intro Ht. destruct pairs_facts as [_ [_ [F3 _]]].
+    apply (Permutation_in _ (Permutation_sym F3)) in Ht. apply in_map_iff in Ht. destruct Ht as [[a b] [E H]]. simpl in E. subst. eauto.
+  Qed.
+End PairingInverse.
+
+Lemma aux_complete S : forall T used,
+  NoDup T ->
+  (forall t, In t T -> exists s, partner S t = Some s) ->
+  (forall t1 t2, In t1 T -> In t2 T -> partner S t1 = partner S t2 -> t1 = t2) ->
+  (forall t s, In t T -> partner S t = Some s -> ~ In s used) ->
+  exists pairs', match_types_aux T S used = Some pairs' /\ map fst pairs' = T /\
+                 forall ts, In ts pairs' -> partner S (fst ts) = Some (snd ts).
+Proof.
+  induction T as [|t T IH]; intros used NT Hex Hinj Hused; simpl.
+  - exists []. split; [reflexivity|]. split; [reflexivity|]. intros ts Hts. contradiction.
+  - inversion NT; subst. destruct (Hex t (or_introl eq_refl)) as [s Hs]. rewrite Hs.
+    assert (Hu : memb s used = false) by (apply memb_false; apply (Hused t s); [left; reflexivity | exact Hs]).
+    rewrite Hu.
+    destruct (IH (s :: used) H2) as [l [E1 [E2 E3]]].
+    + intros t' Ht'. apply Hex. right. exact Ht'.
+    + intros t1 t2 H1' H2'. apply Hinj; right; assumption.
+    + intros t' s' Ht' Hs' [X|X].
+      * subst s'. assert (t' = t) by (apply Hinj; [right; exact Ht' | left; reflexivity | congruence]). subst. contradiction.
+      * apply (Hused t' s'); [right; exact Ht' | exact Hs' | exact X].
+    + rewrite E1. exists ((t, s) :: l). split; [reflexivity|]. split; [simpl; f_equal; exact E2|].
+      intros ts [H|H]; [subst; exact Hs | apply E3; exact H].
+Qed.
+
+Lemma mesh_equal_sym_imp rel abs A B :
+  NoDup (cell_types A) -> NoDup (cell_types B) ->
+  mesh_equal rel abs A B = true -> mesh_equal rel abs B A = true.
+Proof.
+  intros NA NB H. unfold mesh_equal in *. apply andb_true_iff in H. destruct H as [HP HC].
+  rewrite points_close_sym, HP. simpl.
+  destruct (match_types (cell_types A) (cell_types B)) as [pairs|] eqn:EM; [|discriminate].
+  destruct (pairs_facts _ _ pairs NB EM) as [F1 [F2 [F3 [F4 F5]]]].
+  destruct (aux_complete (cell_types A) (cell_types B) [] NB) as [pairs' [E1 [E2 E3]]].
+  - intros t Ht. destruct (every_target_paired _ _ pairs NB EM t Ht) as [s Hs]. exists s.
+    apply (partner_inverse _ _ pairs NA NB EM s t Hs).
+  - intros t1 t2 H1 H2 E.
+    destruct (every_target_paired _ _ pairs NB EM t1 H1) as [s1 Hs1].
+    destruct (every_target_paired _ _ pairs NB EM t2 H2) as [s2 Hs2].
+    rewrite (partner_inverse _ _ pairs NA NB EM s1 t1 Hs1), (partner_inverse _ _ pairs NA NB EM s2 t2 Hs2) in E.
+    inversion E; subst s2. apply (fst_unique pairs s1 t1 t2); [rewrite F1; exact NA | exact Hs1 | exact Hs2].
+  - intros t s _ _ X. contradiction.
+  - unfold match_types. rewrite (proj2 (Nat.eqb_eq _ _) (eq_sym F4)). rewrite E1.
+    apply forallb_forall. intros [t s] Hts. simpl.
+    assert (Ht : In t (cell_types B)) by (rewrite <- E2; apply in_map_iff; exists (t, s); split; [reflexivity | exact Hts]).
+    destruct (every_target_paired _ _ pairs NB EM t Ht) as [s0 Hs0].
+    pose proof (partner_inverse _ _ pairs NA NB EM s0 t Hs0) as P0.
+    pose proof (E3 (t, s) Hts) as P1. simpl in P1. rewrite P0 in P1. inversion P1; subst s0.
+    rewrite forallb_forall in HC. specialize (HC (s, t) Hs0). simpl in HC. rewrite rows_equal_sym. exact HC.
+Qed.
+
+(* C16: the verdict does not depend on which mesh is the source and which the reference *)
+Theorem mesh_equal_sym rel abs A B :
+  NoDup (cell_types A) -> NoDup (cell_types B) -> mesh_equal rel abs A B = mesh_equal rel abs B A.
+Proof.
+  intros NA NB. destruct (mesh_equal rel abs A B) eqn:E1; destruct (mesh_equal rel abs B A) eqn:E2; try reflexivity.
+  - rewrite (mesh_equal_sym_imp rel abs A B NA NB E1) in E2. discriminate.
+  - rewrite (mesh_equal_sym_imp rel abs B A NB NA E2) in E1. discriminate.
+Qed.
